@@ -183,3 +183,56 @@ Proof.
   { rewrite <- Hlen, Hsplit, app_length. lia. }
   rewrite Nat.pow_succ_r'. nia.
 Qed.
+
+(* --- usefulness half: the cache is not the trivial "always forget" refinement --- *)
+Lemma fold_len (l : list (option elt)) t :
+  length (tbl (fold_left (fun acc o => match o with
+                                       | Some e => insert_raw acc (ekey e) (eval e) (ehash e)
+                                       | None => acc end) l t)) = length (tbl t).
+Proof.
+  revert t; induction l as [|[e|] l IH]; intros t; simpl; auto.
+  rewrite IH. simpl. apply length_set_nth.
+Qed.
+
+Lemma grow_len t : length (tbl (grow t)) = 2 ^ cap (grow t).
+Proof. unfold grow; simpl. rewrite fold_len, fold_cap. simpl. apply repeat_length. Qed.
+
+Lemma insert_raw_len t k v h :
+  length (tbl t) = 2 ^ cap t -> length (tbl (insert_raw t k v h)) = 2 ^ cap (insert_raw t k v h).
+Proof. intros Hl. simpl. rewrite length_set_nth. exact Hl. Qed.
+
+Lemma insert_len t k v h :
+  length (tbl t) = 2 ^ cap t -> length (tbl (insert t k v h)) = 2 ^ cap (insert t k v h).
+Proof.
+  intros Hl. unfold insert. apply insert_raw_len. destruct (needs_grow t); auto using grow_len.
+Qed.
+
+Lemma insert_raw_get t k v h : length (tbl t) = 2 ^ cap t -> get (insert_raw t k v h) k h = Some v.
+Proof.
+  intros Hl. unfold get. simpl.
+  rewrite nth_set_nth_eq by (rewrite Hl; apply pos_lt). simpl. rewrite N.eqb_refl. reflexivity.
+Qed.
+
+(* a value just inserted is found by the next lookup under the same key and hash, in every
+   well-shaped table (grown or not) *)
+Theorem get_after_insert t k v h : length (tbl t) = 2 ^ cap t -> get (insert t k v h) k h = Some v.
+Proof.
+  intros Hl. unfold insert. apply insert_raw_get. destruct (needs_grow t); auto using grow_len.
+Qed.
+
+(* an insert that does not grow the table leaves every other slot's answer alone *)
+Theorem get_other_slot t k v h k' h' :
+  needs_grow t = false -> pos (cap t) h' <> pos (cap t) h -> get (insert t k v h) k' h' = get t k' h'.
+Proof.
+  intros Hg Hne. unfold insert. rewrite Hg. unfold get. simpl.
+  rewrite nth_set_nth_neq by auto. reflexivity.
+Qed.
+
+(* every reachable table is well shaped, so the two theorems above apply to it *)
+Theorem final_len c ops : length (tbl (final (lru_new c) ops)) = 2 ^ cap (final (lru_new c) ops).
+Proof.
+  assert (G : forall t, length (tbl t) = 2 ^ cap t -> length (tbl (final t ops)) = 2 ^ cap (final t ops)).
+  { induction ops as [|o r IH]; intros t Hl; simpl; auto.
+    apply IH. destruct o as [k v h|k h]; cbn [step fst]; [apply insert_len; exact Hl|exact Hl]. }
+  apply G. simpl. apply repeat_length.
+Qed.
